@@ -133,4 +133,5 @@ def run(ctx):
     ctx.extra['recovery_cells'] = {r['id']: '%d/%d' % (r['k'], r['n']) for r in records}
     for (f, t, sd, n) in jobs:
         ctx.case('recover|%s|%.1f|%d' % (f, t, sd))
+    ctx.traces += len(cases)          # observation tables / samples of the real code judged by TLC
     ctx.exhaustive = False
